@@ -8,6 +8,7 @@ import JenVerif.Props.C15
 import JenVerif.Props.C06
 import JenVerif.Props.C04
 import JenVerif.Props.C19
+import JenVerif.Props.C03
 /-
   Property statements transferred to the TRANSLATED code.
 
@@ -237,6 +238,27 @@ theorem C19_C_on_code (lib : Go.Lib) (hl : lib.AsciiOk) (f : FileS)
   rw [register_src_eq_model tl ip lib hl f b!"C" fuel hf]
   exact C19.C_registered_as_C hI hloc
 
+/-- C03 on the translated `File.Render` (NoFormat, so the bytes are jennifer's own): what it hands to
+    the writer is the file head, the import block printed from the table it LEAVES BEHIND, and the body
+    rendered purely under that same final table — every qualifier in the body is the name the block
+    declares for its path -/
+theorem C03_final_table_on_code (w : World) (f : FileS)
+    (hI : RegistryInv.Inv (Props.cfgOf tl ip) f) (hH : RegistryInv.HintsOk f) (items : List Code) (n : Nat)
+    (hn : depth (.group fileInfo items) < n) (ht : TagsOk (.group fileInfo items))
+    (hm : misuse f.np (.group fileInfo items) = false) (hnf : f.noFormat = true) :
+    let cfg := Props.cfgOf tl ip
+    let r := Gen.Src.Render cfg (srcRec cfg n) w items f
+    r.2.1 = [Effect.callerWrite (fileHead cfg.isPrint r.2.2 ++ renderImports cfg.isPrint r.2.2 ++
+      renderP cfg (envOf r.2.2) none (.group fileInfo items))] := by
+  intro cfg r
+  have hc := File_Render_closed tl ip w f hI hH items n hn ht
+  have hs : r.2.2 = (renderFileRaw cfg f items).2 := hc.2.2 hm
+  have he : r.2.1 = (fileRender w cfg f items).2.1 := hc.2.1
+  have hraw := (C03.file_uses_final_table (cfg := cfg) hH (Props.stdOk tl ip) items).1
+  rw [he, hs, ← hraw]
+  simp [fileRender, fileRenderFrom, emit, hm, hnf]
+
+#print axioms C03_final_table_on_code
 #print axioms C19_C_on_code
 #print axioms C04_block_exact_on_code
 #print axioms C06_local_on_code
